@@ -127,7 +127,7 @@ theorem PostInv.setAttr {E : Ds} {fs : FileSt} (h : PostInv E fs) (n : Name) (k 
     · simpa [hc] using this
     · simpa [hc] using this
 
-theorem run_post_inv (fx : Fix) (E : Ds) {α : Type} (p : Prog α) :
+theorem run_post_inv (fx : Fix) (hg : fx.globalsGuarded = true) (E : Ds) {α : Type} (p : Prog α) :
     ∀ (r : Reg) (fs : FileSt), PostInv E fs → PostInv E (run fx .post p r fs).2.2 := by
   induction p with
   | pure a => intro r fs h; exact h
@@ -183,7 +183,7 @@ theorem run_post_inv (fx : Fix) (E : Ds) {α : Type} (p : Prog α) :
     intro r fs h
     simp only [run]
     split
-    · rename_i hc; exact absurd hc (by decide)
+    · rename_i hc; exact absurd hc (by simp [hg])
     · exact ih r fs h
 
 end Cfdm.Append
